@@ -147,9 +147,8 @@ def clauses(case, exp, got_list, root_filter=False):
         name = os.path.basename(p)
         _, occ = rewrite(name, case["pairs"])
         node = case["tree"].get(p)
-        if len(got.get(p, [])) > 1 and len({q for _, q in got[p]}) == 1 and \
-                sum(1 for r in case["roots"] if under(p, r)) > 1:
-            out.add("overlapping_roots_duplicate_renames")
+        if len(got.get(p, [])) > 1:
+            out.add("UNLISTED:scheduled_twice:" + p)      # repaired by 4d2e5a7 (dedup_renames); must not come back
         elif node and node[0] == "l" and "--no-rename-files" in case["flags"] and p not in exp and len(got.get(p, [])) == 1:
             out.add("no_rename_files_renames_symlinks")
         elif root_filter and node and node[0] == "l" and p in exp and not got.get(p) and \
@@ -360,9 +359,10 @@ def judge(ctx, case, impl_line, model_line, root_filter, what):
         if impl_line == model_line:
             ex = common.run_model([plan_request(case, "explain", case["vline"])])[0]
             _, collected, _ = parse_plan_line(ex)
+            collected = list(dict.fromkeys(collected))      # the diagnostic walks every root: one copy per node
             cexp = {p: (k, q) for k, p, q in collected}
             cl, _ = clauses(case, exp, collected, root_filter)
-            if cl and (dest_collision(cexp) or reserved_dest(cexp) or len(cexp) < len(collected)) and \
+            if cl and (dest_collision(cexp) or reserved_dest(cexp)) and \
                     all((ctx.pid, c) in ctx.findings for c in cl):
                 for c in cl:
                     ctx.known(c)
@@ -382,6 +382,13 @@ def judge(ctx, case, impl_line, model_line, root_filter, what):
             ctx.violation("input", {"op": what, **describe(case)}, expected="only the last component changes",
                           observed=[k, p, q], model_prediction=model_line)
             return "VIOLATION"
+    srcs = [p for _, p, _ in got]
+    if len(set(srcs)) != len(srcs):
+        dup = sorted(p for p in set(srcs) if srcs.count(p) > 1)
+        ctx.violation("input", {"op": what, **describe(case)}, expected="every node scheduled at most once",
+                      observed={"scheduled_twice": dup}, model_prediction=model_line,
+                      note="a node is scheduled for more than one rename (overlapping search roots? repaired by 4d2e5a7)")
+        return "VIOLATION"
     dests = {}
     for k, p, q in got:
         if q in dests and dests[q] != p:
@@ -478,6 +485,7 @@ def judge_cli(ctx, case, model_line, model_plan_line):
     if model_plan_line.startswith("refused"):
         model_agrees = rc != 0 and got == path_set(before)
         _, mrens, _ = parse_plan_line(common.run_model([plan_request(case, "explain", case["vline"])])[0])
+        mrens = list(dict.fromkeys(mrens))
         if not case.get("rename_root"):
             mrens = [r for r in mrens if r[1] not in case["roots"]]
     else:
